@@ -52,7 +52,7 @@ PLAN = {
         "explanation": "wiring lemma per shipped .ini + bounded run-time monitor of pending == fresh",
     },
     "C07": {
-        "sidecars": ["contracts.handlers_c07", "contracts.cellboundary_c07"],
+        "sidecars": ["contracts.handlers_c07", "contracts.cellboundary_c07", "contracts.composite_c12"],
         "extra": ["monitors.provider:bounded"],
         "level": "other",
         "trusted": COMMON_TRUSTED + ["run-time monitors are a bounded stand-in: they cover the shipped configurations for the stated number of events only"],
